@@ -174,9 +174,41 @@ def generate_multitower(ctx):
         ctx.explore("interface.run_bldfm_multitower[flux=%s]" % use_flux, thunk, PROPS)
 
 
+class Future:
+    """concurrent.futures.Future of a submitted call: result() is the call's return value."""
+
+    def __init__(self, thunk):
+        self._thunk = thunk
+
+    def result(self, timeout=None):
+        return self._thunk()
+
+
+def as_completed(fs, timeout=None):
+    """concurrent.futures.as_completed: the submitted futures in COMPLETION order, which is any order whatsoever -- an
+    uninterpreted permutation of the submission order (a result assembled in this order is in configuration order only
+    if the permutation happens to be the identity)."""
+    run = sym.engine()
+    if not isinstance(fs, SList):
+        fs = SList(Num(len(fs)), (lambda lst: lambda k: lst[int(num(k).t)])(list(fs)), name="futures") if not isinstance(fs, SList) else fs
+        raise sym.Undecided("as_completed over a concrete list of futures")
+    perm = z3.Function(run.fresh("completion_order"), z3.IntSort(), z3.IntSort())
+    n = fs.length
+
+    def elem(k):
+        k = num(k)
+        j = Num(perm(k.z()))
+        run.assume(((k >= 0) & (k < n)).implies((j >= 0) & (j < n)))
+        return fs.elem(j)
+    return SList(n, elem, name="as_completed")
+
+
 class Pool:
     """concurrent.futures.ProcessPoolExecutor under its ordering contract."""
     made = None
+
+    def submit(self, fn, *args, **kw):
+        return Future(lambda: fn(*args, **kw))
 
     def __init__(self, max_workers=None):
         self.max_workers = max_workers
@@ -245,6 +277,7 @@ def generate_parallel(ctx):
     harness.define(ctx, ns, MOD, "_worker_single")
     harness.define(ctx, ns, MOD, "_worker_timeseries")
     ns["ProcessPoolExecutor"] = Pool
+    ns["as_completed"] = as_completed
 
     class BothOuter(loops.Constructive):
         """tasks after t towers: t complete rows (config, tower_t', i'), i' < n_time"""
